@@ -251,8 +251,9 @@ def check_seq(arg):
     for k, op in enumerate(ops):
         if op == "sort":
             # sort is modelled right after a renumbering: shuffle the top-level items first, sort must restore the numbered order
-            acl.resequence(10, 10)
-            model.apply("resequence:10:10", rnd)
+            st_, sp_ = [(10, 10), (5, 5), (95, 10)][(k + len(ops)) % 3]
+            acl.resequence(st_, sp_)
+            model.apply(f"resequence:{st_}:{sp_}", rnd)
             its = list(acl.items)
             rnd.shuffle(its)
             acl.items.clear()
